@@ -666,3 +666,45 @@ def inline_helper_calls(f, methods, depth=2):
     g2.body = rewrite(f.body, 0)
     ast.fix_missing_locations(g2)
     return g2
+
+
+def structure_continues(body):
+    """Loop body in which every guard clause `if c: A...; continue` (at the top level of the body, no else branch) is rewritten as
+    `if c: A... else: <rest of the body>` - the same control flow without the jump, for analyses that execute a body as a block."""
+    out = []
+    for i, st in enumerate(body):
+        if isinstance(st, ast.If) and not st.orelse and st.body and isinstance(st.body[-1], ast.Continue) and \
+                not any(isinstance(n, (ast.Continue, ast.Break)) for b in st.body[:-1] for n in ast.walk(b)):
+            rest = structure_continues(body[i + 1:])
+            new = ast.If(test=st.test, body=st.body[:-1] or [ast.Pass()], orelse=rest or [ast.Pass()])
+            ast.copy_location(new, st)
+            out.append(new)
+            return out
+        out.append(st)
+    return out
+
+
+def delegation(f, target, n_args=None):
+    """Is the body of `f` nothing but one call  self.<target>(p1, p2, ...)  with its own parameters, in order (through C casts, `.data`
+    buffers and single-site pure temporaries)?  Returns (ok, detail)."""
+    g = inline_pure_temps(f)
+    body = [st for st in g.body if not (isinstance(st, ast.Expr) and isinstance(st.value, ast.Constant))
+            and not (isinstance(st, ast.AnnAssign) and st.value is None) and not isinstance(st, ast.Pass)]
+    if len(body) != 1 or not isinstance(body[0], (ast.Expr, ast.Return)) or not isinstance(body[0].value, ast.Call):
+        return False, 'the body is not a single call (%d statements: %s)' % (len(body), '; '.join(stmt_key(b) for b in body[:4]))
+    call = body[0].value
+    if _src(call.func).replace(' ', '') != 'self.%s' % target:
+        return False, 'calls %s, not self.%s' % (_src(call.func), target)
+    params = [a.arg for a in g.args.args[1:]]
+    if n_args is not None:
+        params = params[:n_args]
+    if call.keywords or len(call.args) != len(params):
+        return False, 'passes %d arguments for the %d parameters %s' % (len(call.args), len(params), params)
+    for a, pname in zip(call.args, params):
+        a = strip_cast(a)
+        if isinstance(a, ast.Attribute) and a.attr == 'data':
+            a = a.value
+        a = strip_cast(a)
+        if not (isinstance(a, ast.Name) and a.id == pname):
+            return False, 'argument %s is passed where parameter %s belongs' % (_src(a), pname)
+    return True, ''
